@@ -199,3 +199,22 @@ PLANS["C12"] = {
     "level_note": "Trusted: the counting allocator, catch_unwind, the process boundary. The live trackers are attacked with the same corpus in the live engines.",
     "design_ref": "3/C12",
 }
+
+PLANS["C04"] = {
+    "title": "UDP shared swarm state is linearizable and deadlock-free",
+    "level": "exploration",
+    "engine": "sched",
+    "technique": "serialised schedule enumeration at lock-gap probes (DFS over real executions) + free-running stress with delay injection, both decided by a per-torrent linearizability checker over recorded histories; progress watchdog with gdb backtraces for deadlock",
+    "packages": ["vudp"],
+    "parallel": 16,
+    "steps": lambda tier, seed: ([{"name": "udp_sched", "bin": "udp_sched", "args": ["--max_leaves", "24000", "--budget_s", "45"], "timeout_s": 400},
+                                  {"name": "udp_stress", "bin": "udp_stress", "args": ["--rounds", "3000", "--budget_s", "40"], "timeout_s": 400}] if tier == "quick" else
+                                 [{"name": "udp_sched", "bin": "udp_sched", "args": ["--max_leaves", "2000000", "--budget_s", "500"], "timeout_s": 1500}]
+                                 + shards("udp_stress", "udp_stress", 12, ["--rounds", "100000000", "--budget_s", "300"], timeout_s=1200)),
+    "min_evaluations": {"quick": 3000, "thorough": 100000},
+    "assumptions": ["exhaustive only for the listed program shapes and at probe granularity (every shared access lies inside a critical section between two probes)",
+                    "liveness restated as bounded progress: no 4 s stall with every thread released (enumeration), no 30 s stall under load (stress)"],
+    "level_text": "Exploration, systematic for small programs: (1) twelve program templates of 2-3 threads x 1-3 operations (fresh torrent races, announce vs clean on an expired-only or stopped-empty torrent, stop/announce/clean, scrape vs announce, same key twice, inline<->heap switches raced with clean, two cleaners) are executed under every interleaving of their critical sections by parking threads at the probes; each leaf is a real execution whose replies, final scrape and observer read-out must be linearizable per torrent; a released thread that cannot reach its next probe is a forced switch, nobody runnable is a deadlock witness. (2) 6-12 free-running threads with injected yields/sleeps at the same probes, per-round histories checked by the same checker.",
+    "level_note": "Trusted: the linearizability checker (vcore::lin), the probe placement rule (never inside a lock), the tick clock at the API boundary.",
+    "design_ref": "3/C04",
+}
